@@ -274,6 +274,10 @@ class ExprMixin:
             # repo symbol: module path + attribute
             from . import loader
             import os
+            full = "/".join(parts)
+            if os.path.exists(os.path.join(self.module.repo, full + ".py")) or \
+                    os.path.exists(os.path.join(self.module.repo, full, "__init__.py")):
+                return VMod(dotted)          # `from pkg import module` / `import pkg.module as m`: attribute access resolves further
             for k in range(len(parts) - 1, 0, -1):
                 rel = "/".join(parts[:k]) + ".py"
                 rel_pkg = "/".join(parts[:k]) + "/__init__.py"
@@ -335,7 +339,7 @@ class ExprMixin:
     def e_Dict(self, n, st):
         out = []
         if any(k is None for k in n.keys):
-            self.unsupported(n, "dict ** unpacking")
+            return self._dict_with_unpacking(n, st)
         for (s, ks) in self.ev_list(n.keys, st):
             for (s2, vs) in self.ev_list(n.values, s):
                 consts = [self.py_const(k) for k in ks]
@@ -344,6 +348,37 @@ class ExprMixin:
                 ref = s2.alloc(HeapObj("dict", dict(zip(consts, vs))), self.refs)
                 out.append((s2, VRef(ref)))
         return out
+
+    def _dict_with_unpacking(self, n, st):
+        """{**a, k: v, **b}: entries in display order, later keys overwrite (concrete keys only; `**x` of a constant table
+        or of a dict with concrete keys)."""
+        acc = [(st, {})]
+        for k, v in zip(n.keys, n.values):
+            nxt = []
+            for (s, d) in acc:
+                if k is None:
+                    for (s2, m) in self.ev(v, s):
+                        if isinstance(m, VDictC):
+                            items = m.items
+                        elif isinstance(m, VRef) and s2.obj(m.ref).kind == "dict" and s2.obj(m.ref).data is not None:
+                            items = s2.obj(m.ref).data
+                        else:
+                            self.unsupported(n, "dict ** unpacking of a non-constant mapping")
+                        d2 = dict(d)
+                        for kk, vv in items.items():
+                            d2[kk] = vv
+                        nxt.append((s2, d2))
+                else:
+                    for (s2, kv) in self.ev(k, s):
+                        c = self.py_const(kv)
+                        if c is _NC:
+                            self.unsupported(n, "dict display with symbolic keys")
+                        for (s3, vv) in self.ev(v, s2):
+                            d2 = dict(d)
+                            d2[c] = vv
+                            nxt.append((s3, d2))
+            acc = nxt
+        return [(s, VRef(s.alloc(HeapObj("dict", d), self.refs))) for (s, d) in acc]
 
     def py_const(self, v: V):
         if isinstance(v, (VInt, VBool, VStr)):
